@@ -24,6 +24,7 @@ type Env struct {
 	pkg     string // package path for name resolution
 	recSelf *specFunInfo
 	rangeIter *ssa.Range
+	iterOld *State // state at the head of the innermost loop around the current program point (for iterold(e))
 	inApply bool // translating the expression of an `apply` clause: lemma calls denote (requires ==> ensures)
 }
 
@@ -329,7 +330,19 @@ func (f *FnVC) trExpr(env *Env, e SExpr) TV {
 			}
 			return TV{}, false
 		}
-		return f.trExpr(n, x.X)
+		r := f.trExpr(n, x.X)
+		if r.Sort == sliceSort && env.inQuant == 0 && f.sliceSt[r.T] == nil {
+			// the slice value is the same in both states; its ELEMENTS are those of the old state: give it a name of
+			// its own that remembers the state (element reads and spec-function projections look it up)
+			if f.sliceSt == nil {
+				f.sliceSt = map[string]*State{}
+			}
+			c := f.freshConst("oldsl", sliceSort)
+			f.fact(sEq(c, r.T))
+			f.sliceSt[c] = env.old
+			r.T = c
+		}
+		return r
 	case SUn:
 		a := f.trExpr(env, x.X)
 		switch x.Op {
@@ -540,11 +553,11 @@ func (f *FnVC) trBin(env *Env, x SBin) TV {
 		return TV{"(* " + a.T + " " + b.T + ")", a.Ty, a.Sort}
 	case "/":
 		if a.Sort == "Real" {
-			return TV{"(/ " + a.T + " " + b.T + ")", a.Ty, a.Sort}
+			return TV{"(" + f.rdivSym(b.T) + " " + a.T + " " + b.T + ")", a.Ty, a.Sort}
 		}
-		return TV{"(tdiv " + a.T + " " + b.T + ")", a.Ty, a.Sort}
+		return TV{"(" + f.divSym("tdiv", b.T) + " " + a.T + " " + b.T + ")", a.Ty, a.Sort}
 	case "%":
-		return TV{"(tmod " + a.T + " " + b.T + ")", a.Ty, a.Sort}
+		return TV{"(" + f.divSym("tmod", b.T) + " " + a.T + " " + b.T + ")", a.Ty, a.Sort}
 	case "<<":
 		if n, err := strconv.Atoi(b.T); err == nil {
 			return TV{"(* " + a.T + " " + pow2(n) + ")", a.Ty, a.Sort}
@@ -675,7 +688,11 @@ func (f *FnVC) trIndex(env *Env, x SIndex) TV {
 	switch u := a.Ty.Underlying().(type) {
 	case *types.Slice:
 		eh := f.elemHeap(u.Elem())
-		tv = f.tv(sSel(env.st.projGet(eh, a.T), sIdx("(s_off "+a.T+")", i.T)), u.Elem())
+		est := env.st
+		if st2 := f.sliceSt[a.T]; st2 != nil {
+			est = st2
+		}
+		tv = f.tv(sSel(est.projGet(eh, a.T), sIdx("(s_off "+a.T+")", i.T)), u.Elem())
 	case *types.Array:
 		tv = f.tv(sSel(a.T, i.T), u.Elem())
 	case *types.Pointer:
@@ -750,6 +767,27 @@ func (f *FnVC) trCall(env *Env, x SCall) TV {
 		return f.trExpr(env, x.Args[i])
 	}
 	switch id.Name {
+	case "iterold":
+		// iterold(e): e as it was at the beginning of the current iteration of the innermost enclosing loop
+		if env.iterOld == nil {
+			sfail("iterold() is only available at a program point inside a loop")
+		}
+		if len(x.Args) != 1 {
+			sfail("iterold(e)")
+		}
+		n := env.clone()
+		n.st = env.iterOld
+		r := f.trExpr(n, x.Args[0])
+		if r.Sort == sliceSort && env.inQuant == 0 {
+			if f.sliceSt == nil {
+				f.sliceSt = map[string]*State{}
+			}
+			c := f.freshConst("iteroldsl", sliceSort)
+			f.fact(sEq(c, r.T))
+			f.sliceSt[c] = env.iterOld
+			r.T = c
+		}
+		return r
 	case "len":
 		a := arg(0)
 		switch {
@@ -1095,7 +1133,11 @@ func (f *FnVC) applySpecFun(env *Env, sf *SpecFun, args []TV) TV {
 			found := false
 			for k, p := range sf.Params {
 				if "a_"+p.Name == pn {
-					as = append(as, env.st.projGet(h[:i], as[k]))
+					est := env.st
+					if st2 := f.sliceSt[as[k]]; st2 != nil {
+						est = st2
+					}
+					as = append(as, est.projGet(h[:i], as[k]))
 					found = true
 				}
 			}
